@@ -125,6 +125,7 @@ type idLabel struct {
 const (
 	dnA     = "x509.subject:C=US,ST=WA,O=acme"
 	dnAs    = "x509.subject:C=US,S=WA,O=acme"
+	dnAsp   = "x509.subject:C=US, ST=WA, O=acme" // the spelling of the Notary Project specification's examples
 	dnAcn   = "x509.subject:C=US,ST=WA,O=acme,CN=build"
 	dnAcnS  = "x509.subject:C=US,S=WA,O=acme,CN=build"
 	dnAcnR  = "x509.subject:CN=build,O=acme,ST=WA,C=US"
@@ -151,6 +152,7 @@ var idAlphabet = []idLabel{
 	{V: "*", Tag: "wildcard", Kind: idWild},
 	{V: dnA, Tag: "A", Kind: idX509, Attrs: attrsA, SVariant: dnAs},
 	{V: dnAs, Tag: "A-with-S", Kind: idX509, Attrs: attrsA},
+	{V: dnAsp, Tag: "A-blank-after-comma", Kind: idX509, Attrs: attrsA},
 	{V: dnAcn, Tag: "A+CN", Kind: idX509, Attrs: attrsAcn, SVariant: dnAcnS},
 	{V: dnAcnS, Tag: "A+CN-with-S", Kind: idX509, Attrs: attrsAcn},
 	{V: dnAcnR, Tag: "A+CN-reordered", Kind: idX509, Attrs: attrsAcn},
